@@ -91,6 +91,7 @@ fn tables(cli: &Cli, rep: &mut Report) {
 }
 
 fn trackers(cli: &Cli, rep: &mut Report) {
+    let ctl = if cli.small { None } else { Some(vh::sched::Controller::install()) };
     let n = cli.cases(200, 4000);
     for k in cli.index_range(n) {
         if k >> 48 != 0 {
@@ -98,7 +99,7 @@ fn trackers(cli: &Cli, rep: &mut Report) {
         }
         let idx = k;
         let mut rng = Rng::for_case(cli.seed, cli.shard, idx);
-        let kind = if idx % 2 == 0 { Kind::Sort } else { Kind::Visual };
+        let kind = match idx % 6 { 0 | 2 => Kind::Sort, 4 => Kind::BatchSort, 5 => Kind::BatchVisual, _ => Kind::Visual };
         let mut cfg = gen_cfg(&mut rng, kind);
         cfg.max_idle = 1 + rng.usize(5);
         cfg.vis.own_use = 0.0;
@@ -127,12 +128,15 @@ fn trackers(cli: &Cli, rep: &mut Report) {
         loose.constraints = Some(vec![(0..=cfg.max_idle + 1).map(|g| (g, 1.0e6f32)).collect()]);
         let mut a = AnyTracker::new(&cfg);
         let mut b = AnyTracker::new(&loose);
+        let (mut bmap, mut brev): (HashMap<u64, u64>, HashMap<u64, u64>) = (HashMap::new(), HashMap::new());
         for (ci, op) in ops.iter().enumerate() {
             if let Op::Predict { scene, dets } = op {
                 let ra = a.predict(*scene, dets);
                 let rb = b.predict(*scene, dets);
                 rep.count("unconstrained_vs_loose_calls_compared");
-                if ra != rb {
+                // (batch trackers: ids up to the incrementally built bijection)
+                let differs = if kind.is_batch() { bijection_check(&ra, &rb, &mut bmap, &mut brev).is_some() } else { ra != rb };
+                if differs {
                     rep.violation(&format!("C20/{:?}/non-binding-constraints-change-behaviour", kind), idx, json!({"cfg": cfg.js(), "call": ci, "without": ra.iter().map(|r| r.js()).collect::<Vec<_>>(), "with": rb.iter().map(|r| r.js()).collect::<Vec<_>>()}));
                     break;
                 }
@@ -145,6 +149,8 @@ fn trackers(cli: &Cli, rep: &mut Report) {
         let tables = tight.constraints.clone().unwrap();
         let mut t = AnyTracker::new(&tight);
         let mut u = AnyTracker::new(&cfg);
+        // batch kinds: every judged call is logged for the pipelined re-run below
+        let mut seq_log: Vec<(u64, Vec<Det>, Vec<Rec>, Vec<LiveTrack>, usize)> = vec![];
         for (ci, op) in ops.iter().enumerate() {
             if let Op::Predict { scene, dets } = op {
                 let pre: HashMap<u64, LiveTrack> = t.live().into_iter().map(|x| (x.id, x)).collect();
@@ -153,6 +159,9 @@ fn trackers(cli: &Cli, rep: &mut Report) {
                 let recs = t.predict(*scene, dets);
                 let ru = u.predict(*scene, dets);
                 rep.count("constrained_calls");
+                if kind.is_batch() && !dets.is_empty() {
+                    seq_log.push((*scene, dets.clone(), recs.clone(), pre_vec.clone(), epoch));
+                }
                 let mut removed_here = false;
                 for (i, r) in recs.iter().enumerate() {
                     if let Some(p) = pre.get(&r.id) {
@@ -168,7 +177,7 @@ fn trackers(cli: &Cli, rep: &mut Report) {
                     }
                 }
                 // the whole call is still an optimal assignment among the admissible (constrained) pairs
-                let ok = if kind == Kind::Sort {
+                let ok = if !kind.is_visual() {
                     let ids: HashSet<u64> = pre.keys().cloned().collect();
                     let assigned: Vec<Option<u64>> = recs.iter().map(|r| if ids.contains(&r.id) { Some(r.id) } else { None }).collect();
                     let cont: HashSet<u64> = assigned.iter().flatten().cloned().collect();
@@ -199,13 +208,23 @@ fn trackers(cli: &Cli, rep: &mut Report) {
                 }
             }
         }
+        drop(t);
+        drop(u);
+        // (3) batch kinds: the constrained history once more, pipelined (results read by consumer threads, store writes of
+        // the voting threads stalled): each outcome is judged, constraints included, against the sequential run's snapshot
+        if kind.is_batch() && !cli.small && seq_log.len() >= 2 {
+            if let Some((sig, d)) = vh::posref::pipelined_pass(&tight, &seq_log, ctl.as_deref(), &mut rng, rep, "") {
+                rep.violation(&format!("C20/{:?}/pipelined/{}", kind, sig), idx, json!({"cfg": tight.js(), "detail": d}));
+                return;
+            }
+        }
     }
 }
 
 fn main() {
     let cli = Cli::parse();
     let mut rep = Report::new("C20", &cli);
-    rep.note("rule", json!("(1) exhaustive constraint tables: every ordered sequence of <= 3 (gap, limit) entries over gaps 0..8 x limits {0.5,1,2,4}, given in one add_constraints call or split over two (and through the builder method), probed at every gap 0..10 x 9 distances including the limits exactly and +-1e-5; reference: applicable limit = first configured limit of the smallest configured gap >= probe gap, admit iff d <= limit, none => admit; admission monotone in d. (2) trackers (Sort, VisualSort) on teleport / re-appear histories: a run with constraints that no pair can violate (limit 1e6 for every gap) must equal the unconstrained run bit for bit, ids included; a run with random binding tables must never attach a detection to a track whose centre distance in units of the summed bounding radii exceeds the limit for their epoch gap (1e-4 band), and every call must still be an optimal gated assignment among the admissible pairs (C02 / C12 oracles with the constraint applied). Non-trivial: every distinct table; tracker calls where the constraints changed the outcome."));
+    rep.note("rule", json!("(1) exhaustive constraint tables: every ordered sequence of <= 3 (gap, limit) entries over gaps 0..8 x limits {0.5,1,2,4}, given in one add_constraints call or split over two (and through the builder method), probed at every gap 0..10 x 9 distances including the limits exactly and +-1e-5; reference: applicable limit = first configured limit of the smallest configured gap >= probe gap, admit iff d <= limit, none => admit; admission monotone in d. (2) trackers (Sort, VisualSort, BatchSort, BatchVisualSort; the batch kinds also re-run pipelined, each outcome judged against the sequential run's snapshot) on teleport / re-appear histories: a run with constraints that no pair can violate (limit 1e6 for every gap) must equal the unconstrained run bit for bit, ids included; a run with random binding tables must never attach a detection to a track whose centre distance in units of the summed bounding radii exceeds the limit for their epoch gap (1e-4 band), and every call must still be an optimal gated assignment among the admissible pairs (C02 / C12 oracles with the constraint applied). Non-trivial: every distinct table; tracker calls where the constraints changed the outcome."));
     rep.note("assumptions", json!(["distances are measured between the detection and the track's last estimated box, as the library does"]));
     rep.note("exhaustive", json!(true));
     if !cli.small {
